@@ -11,6 +11,7 @@ CONSTANTS
   MaxR = 0
   HeightSet <- HeightsM
   Direct = 1
+  Probes <- ProbesM
   Pinned <- PinnedM
   EmitRate = 1
   FocusRate = 0
@@ -18,5 +19,5 @@ INIT SInit
 NEXT SNext
 VIEW View
 CHECK_DEADLOCK FALSE
-INVARIANTS TypeOK
+INVARIANTS TypeOK C09design
 PROPERTIES PC15 PC16
